@@ -263,7 +263,11 @@ CondCtxFillPats ==
    LET S1 == { CondCtx(i, CondFillers[j]) : i \in 1..NCondContexts, j \in 1..Len(CondFillers) }
        S2 == { Cat(<<Opt(Grp(101, La)), CondCtx(i, CondFillersG[j])>>) : i \in 1..NCondContexts, j \in 1..Len(CondFillersG) }
        S3 == { Cat(<<Grp(101, Opt(La)), CondCtx(i, CondFillersG[j])>>) : i \in 1..NCondContexts, j \in 1..Len(CondFillersG) }
-       W == { e \in S1 \cup S2 \cup S3 : CtxOK(e) }
+       \* the tested group sits in a constant-size alternation that can match the same text with and without it: the engine must be able
+       \* to come back into the alternation when the branch chosen by the test fails
+       S4 == { Cat(<<Alt(<<Grp(101, La), La>>), CondCtx(i, CondFillersG[j])>>) : i \in {1, 2, 3, 4, 5, 6, 15, 16, 17}, j \in 1..Len(CondFillersG) }
+       S5 == { Cat(<<Alt(<<Grp(101, La), AnyC>>), CondCtx(i, CondFillersG[j])>>) : i \in {1, 2, 15, 16}, j \in 1..Len(CondFillersG) }
+       W == { e \in S1 \cup S2 \cup S3 \cup S4 \cup S5 : CtxOK(e) }
    IN { LET r == Renumber(e) IN [ast |-> r, ng |-> Len(GroupOrder(e))] : e \in W }
 
 Quants8 == {<<0, -1, TRUE>>, <<0, -1, FALSE>>, <<1, -1, TRUE>>, <<0, 1, TRUE>>, <<0, 1, FALSE>>,
